@@ -165,8 +165,8 @@ theorem splitBlock_intervals {ir ir' : IR} {b off nb : Nat} {added : Bool}
 
 @[simp] theorem joinSyms_intervals (ir : IR) (b1 : Block) (id2 : Nat) :
     (ir.joinSyms b1 id2).intervals = ir.intervals := rfl
-@[simp] theorem joinTables_intervals (ir : IR) (b1 : Block) (id2 : Nat) :
-    (ir.joinTables b1 id2).intervals = ir.intervals := rfl
+@[simp] theorem joinTables_intervals (ir : IR) (b1 : Block) (id2 : Nat) (c : Bool) :
+    (ir.joinTables b1 id2 c).intervals = ir.intervals := rfl
 
 @[simp] theorem joinCode_intervals (ir : IR) (b1 : Block) (id2 s2 : Nat) :
     (ir.joinCode b1 id2 s2).intervals = ir.intervals := by
